@@ -5,10 +5,10 @@ TARGETS = {
 PROP = {
     "subchecks": [
         {"target": "c01_tasks_tsan", "sub": "tasks",
-         "quick": {"cases": 600, "max_size": 50, "workers": 8, "case_alarm": 60},
+         "quick": {"cases": 1500, "max_size": 50, "workers": 8, "case_alarm": 60},
          "thorough": {"cases": 40000, "max_size": 120, "workers": 10, "case_alarm": 60}},
         {"target": "c01_tasks_asan", "sub": "tasks",
-         "quick": {"cases": 600, "max_size": 50, "workers": 4, "case_alarm": 60},
+         "quick": {"cases": 1500, "max_size": 50, "workers": 4, "case_alarm": 60},
          "thorough": {"cases": 40000, "max_size": 120, "workers": 6, "case_alarm": 60}},
     ],
     "assumptions": ["other threads submit only through runInLoop() (the thread-safe entry point); runNext()/run() are used by the thread that runs the loop",
